@@ -317,7 +317,7 @@ def check_requests(prop, tier, seed):
         traces = []
         d = work.sub("reqrun")
         procs = []
-        engines = ["memkv", "tikv"] if quick else ["memkv", "tikv", "badger", "metrics"]
+        engines = ["memkv", "tikv", "metrics"] if quick else ["memkv", "tikv", "badger", "metrics", "metrics-tikv"]
         for i, eng in enumerate(engines):
             # one long-lived node per engine; the order of the requests (the sequence the node sees) depends on the seed
             order = list(reqs)
